@@ -321,7 +321,7 @@ fn extremes(rng: &mut Rng, thorough: bool) -> Vec<u64> {
         let x = match rng.below(4) {
             0 => rng.next(),
             1 => rng.next() >> rng.below(64),
-            2 => u64::MAX - (rng.next() >> rng.range(1, 64)),
+            2 => u64::MAX - (rng.next() >> (1 + rng.below(63))),
             _ => rng.next() / W * W,
         };
         v.push(x);
